@@ -9,6 +9,7 @@ package quic_test
 import (
 	"encoding/json"
 	"fmt"
+	"sync"
 	"testing"
 
 	"github.com/refraction-networking/uquic/internal/verifmc/explore"
@@ -57,6 +58,39 @@ func TestVerifC13Race(t *testing.T) {
 				break
 			}
 		}
+		// Process-wide state (the Retry integrity tag computation shares one buffer and lazily
+		// created AEADs across all connections of the process): several Retry handshakes at the
+		// same time, each in its own bubble.
+		retryIdx := -1
+		for i, sc := range c13Scenarios {
+			if sc == "retry" {
+				retryIdx = i
+			}
+		}
+		sim.Unpinned.Store(true) // concurrent bubbles: no process-global randomness pinning
+		for round := 0; retryIdx >= 0 && round < 3 && len(rep.Violations) == 0 && !e.Expired(); round++ {
+			var wg sync.WaitGroup
+			var mu sync.Mutex
+			for g := 0; g < 4; g++ {
+				cfg := c13Config{Scenario: retryIdx, Kind: []string{"plain", "chrome115"}[g%2], Seed: uint64(e.Seed) + 100 + uint64(4*round+g)}
+				explore.MarkCurrent(e, "handshake-race-pass", cfg)
+				wg.Add(1)
+				go func() {
+					defer wg.Done()
+					r := c13Run(t, cfg)
+					f := c13Judge(cfg, r, r)
+					mu.Lock()
+					defer mu.Unlock()
+					rep.Evaluations++
+					oc["concurrent retry "+r.outcome()] = true
+					if f != nil && len(rep.Violations) == 0 {
+						rep.Violations = append(rep.Violations, explore.Violation{Key: "race-pass:concurrent:" + f.Key, What: f.What, Replay: explore.JSON(cfg), Human: []string{cfg.String()}})
+					}
+				}()
+			}
+			wg.Wait()
+		}
+		sim.Unpinned.Store(false)
 		explore.ClearCurrent(e)
 		for o := range oc {
 			rep.Outcomes = append(rep.Outcomes, o)
